@@ -808,4 +808,9 @@ def self_test_alloc(validate):
 
 
 def replay(prop, rp, path):
+    kind = rp.get("kind")
+    if kind == "remap":
+        import remap_tv
+
+        return remap_tv.replay(prop, rp, path)
     return 2
